@@ -116,6 +116,7 @@ func genBarSpec(t *rapid.T, prof *Profile, idx int, succOf map[int]bool) engine.
 	if pct(t, prof.Ext, "ext") {
 		b.ExtRows = rapid.IntRange(1, 3).Draw(t, "extrows")
 		b.ExtRev = rapid.Bool().Draw(t, "extrev")
+		b.ExtNoNL = pct(t, 25, "extnonl") // last extender line without a newline: dropped by the library
 	}
 	if len(prof.Fillers) > 0 {
 		b.Filler = rapid.SampledFrom(prof.Fillers).Draw(t, "filler")
